@@ -516,7 +516,7 @@ func TestC14(t *testing.T) {
 	rig.Main(t, "C14", "rapid programs (JIT synthesis, all opcodes, all width settings, forward and backward rel8, BRL/PER) run twice: on emulator.System with and without a recording "+
 		"Logger, and on cpualt with and without DisassembleCurrentPC before each step; final registers, flags, cycle totals and memory must be equal, and every trace line is parsed and "+
 		"compared with an independent decoder (address, exact byte list for the current widths, mnemonic, canonical operand rendering, branch destination, register values in the selected "+
-		"width, flag letters).  Non-trivial = at least one line judged; distinct = hash(case).",
+		"width, flag letters); half of the traced runs are preceded by a traced run whose sink panics on its second line; the bus-fault record of the traced run is compared with the untraced one.  Non-trivial = at least one line judged; distinct = hash(case).",
 		func(r *rig.Run) {
 			ev := r.Ev
 			twin, _ := cpus()
